@@ -5,7 +5,7 @@
    Statements only; proofs are in P_Tree.v, P_Decoder.v (and P_Null / P_Lz5 /
    P_Lzs / P_BitReader as they are completed). *)
 From Lhasa Require Import Base ListN DecBase BitReader Tree Null Lzs Lz5 Generated Decoder
-  P_Tree P_Decoder P_DecoderInv P_Null P_Lz5 P_BitReader P_Lzs LhNew P_LhNew.
+  P_Tree P_Decoder P_DecoderInv P_Null P_Lz5 P_BitReader P_Lzs LhNew P_LhNew PmaCommon Pm1 Pm2 P_PmaCommon P_Pm1 P_Pm2.
 Local Open Scope N_scope.
 
 (* --- lib/tree_decode.c, shared by the lh4-7/x, lk7 and pm2 decoders --- *)
@@ -151,6 +151,30 @@ Theorem api_read_total_inv : forall (cbs st : Type) (dread : st -> cbs -> outcom
   exists o ev d', lha_decoder_read dread max_read block_size d n = Ok (o, ev, d') /\ I (d_inner d').
 Proof. intros cbs st dread mr bs I H. exact (read_total_inv dread mr bs I H). Qed.
 
+(* PMarc decoders: for ANY input bytes and any chunking of them, every read on a
+   state satisfying the invariant returns normally with at most max_read bytes
+   and re-establishes the invariant; the initial state satisfies it. *)
+Theorem pm2_never_faults : forall cbs (cb : callback cbs), cb_bounded cb -> forall s c, pm2_inv_wf s ->
+  exists ch s' c', pm2_read cb s c = Ok (ch, s', c') /\ nlen ch <= pm2_max_read /\ pm2_inv_wf s'.
+Proof. exact P_Pm2.pm2_never_faults. Qed.
+
+Theorem pm2_init_inv : exists s, pm2_init = Ok s /\ pm2_inv_wf s.
+Proof. exact pm2_init_wf. Qed.
+
+Theorem pm1_never_faults : forall cbs (cb : callback cbs), cb_bounded cb -> forall s c, pm1_inv_wf s ->
+  exists ch s' c', pm1_read cb s c = Ok (ch, s', c') /\ nlen ch <= pm1_max_read /\ pm1_inv_wf s'.
+Proof. exact pm1_read_total. Qed.
+
+Theorem pm1_init_inv : exists s, pm1_init = Ok s /\ pm1_inv_wf s.
+Proof. exact pm1_init_wf. Qed.
+
+(* the PMarc history list (prev/next arrays of 256 entries) always is a pair of
+   inverse permutations of 0..255 *)
+Theorem history_list_wf_perm : forall h, hl_wf h -> forall i, i < 256 ->
+  aget (h_prev h) i < 256 /\ aget (h_next h) i < 256 /\
+  aget (h_next h) (aget (h_prev h) i) = i /\ aget (h_prev h) (aget (h_next h) i) = i.
+Proof. exact hl_wf_perm. Qed.
+
 Print Assumptions build_tree_safe_u16.
 Print Assumptions read_bits_safe.
 Print Assumptions read_from_tree_never_faults.
@@ -167,3 +191,8 @@ Print Assumptions init_tree_safe.
 Print Assumptions read_from_tree_safe.
 Print Assumptions api_read_at_most_asked.
 Print Assumptions api_read_total.
+Print Assumptions pm2_never_faults.
+Print Assumptions pm2_init_inv.
+Print Assumptions pm1_never_faults.
+Print Assumptions pm1_init_inv.
+Print Assumptions history_list_wf_perm.
